@@ -68,6 +68,9 @@ type outcome struct {
 	Status int    `json:"status,omitempty"`
 	// cookies the response sets (Path=/): stored in the client's jar, sent with later attempts
 	SetCookie [][2]string `json:"setcookie,omitempty"`
+	// the request's context is cancelled while the loop is between this attempt and the next
+	// (done by the logging interval function when it is asked for the wait after this attempt)
+	WaitCancel bool `json:"waitcancel,omitempty"`
 }
 
 type shape struct {
@@ -411,6 +414,9 @@ func mkIval(id int) req.GetRetryIntervalFunc {
 		rs := stateOf(resp)
 		st, _ := viewOf(resp, resp.Err)
 		rs.o.Ivals = append(rs.o.Ivals, callObs{id, att, st, errCode(resp.Err)})
+		if rs.attempt >= 0 && rs.attempt < len(rs.p.Script) && rs.p.Script[rs.attempt].WaitCancel {
+			rs.ctx.end(context.Canceled) // the caller gives up while the retry is being prepared
+		}
 		if id%3 == 0 {
 			return 2 * time.Millisecond // a positive wait (interruptible by the context)
 		}
@@ -829,6 +835,7 @@ func oracle(r *hk.Run, p *program, o *observation) {
 	// exact: walk the script and decide, from the property text, how many attempts there must be
 	want := 0
 	var wantHooks, wantIvals, wantConds []callObs
+	waitCancelled := false
 	afterErr := 0
 	for k := 0; k < len(p.Script); k++ {
 		want = k + 1
@@ -866,6 +873,12 @@ func oracle(r *hk.Run, p *program, o *observation) {
 		}
 		if e.Interval > 0 {
 			wantIvals = append(wantIvals, callObs{e.Interval, k + 1, st, ec})
+			if p.Script[k].WaitCancel {
+				// the context ended before the next attempt: none is made; the call reports the
+				// last attempt's response with the context's error
+				waitCancelled = true
+				break
+			}
 		}
 	}
 	if n != want {
@@ -981,14 +994,18 @@ func oracle(r *hk.Run, p *program, o *observation) {
 	if wantErr == 0 {
 		wantErr = afterErr
 	}
+	wantAttempt := n - 1
+	if waitCancelled {
+		wantErr, wantAttempt = 3, n
+	}
 	if o.Status != st || o.Err != wantErr {
 		fail("final:not-last-attempt", "final (status, error) are not those of the last attempt", []int{o.Status, o.Err}, []int{st, wantErr})
 	}
 	if !o.ErrVsResp {
 		fail("final:err-vs-resp", "returned error differs from resp.Err", nil, nil)
 	}
-	if o.Attempt != n-1 {
-		fail("final:retry-attempt", "Request.RetryAttempt is not the number of retries made", o.Attempt, n-1)
+	if o.Attempt != wantAttempt {
+		fail("final:retry-attempt", "Request.RetryAttempt is not the number of retries made", o.Attempt, wantAttempt)
 	}
 }
 
